@@ -19,6 +19,6 @@ try:
     for pr in props:
         r = subprocess.run(["/verif/vcheck", pr], cwd="/verif", stdout=subprocess.PIPE, stderr=subprocess.STDOUT, text=True)
         lines = [l for l in r.stdout.splitlines() if l.startswith(("VIOLATION", "KNOWN"))]
-        print(name, pr, "exit", r.returncode, "|", " ; ".join(lines)[:300])
+        print(name, pr, "exit", r.returncode, "|", " ; ".join(l for l in lines if l.startswith("VIOLATION"))[:300])
 finally:
     subprocess.run("git -C /repo checkout -- .", shell=True, check=True)
